@@ -2,7 +2,6 @@ package rules
 
 import (
 	"fmt"
-	"go/ast"
 	"go/token"
 	"go/types"
 	"sort"
@@ -274,7 +273,6 @@ func c11(e *Env) {
 		e.decoderAnalysis(v)
 		ls, _ := e.F.Levels(v)
 		for _, l := range ls {
-			e.misorderedSentinel(l, v.Name == "v2")
 			// "unknown value code -> invalid value" needs every non-code to parse to the unknown constant
 			for _, fv := range l.Metrics {
 				e.metricTables(l, fv, v.Metric(fv.Name()))
@@ -287,60 +285,6 @@ func c11(e *Env) {
 	c.Floor("deferred-error", 6)
 	c.Floor("sentinel-provenance", 25)
 	c.Floor("sentinel-distinct", 11)
-}
-
-// misorderedSentinel: the two error returns after the loop of a v2 Decode, and the version errors of v3.
-func (e *Env) misorderedSentinel(l *facts.Level, v2 bool) {
-	c := e.C
-	m := e.modelDecode(l, "decode-skeleton")
-	if m == nil {
-		return
-	}
-	who := fname(m.Fn)
-	vec := &ir.Term{Op: ir.OParam, N: 1}
-	for _, r := range m.Returns {
-		if r == m.Success || len(r.Results) != 2 {
-			continue
-		}
-		conds := ir.DomConds(m.B, r.Block())
-		et := m.B.Term(r.Results[1])
-		sent, inner, isWrap := sentinelOf(et)
-		cons := fmt.Sprintf("%s return at %s", who, e.P.Pos(r.Pos()))
-		if v2 {
-			enc := ir.Call(l.Method("Encode"), m.ObjT)
-			ex := func(i int) *ir.Term { return &ir.Term{Op: ir.OExtract, N: i, Args: []*ir.Term{enc}} }
-			if ir.HasCond(conds, ir.Bin("!=", ex(0), vec)) {
-				c.Check(isWrap && sent == spec.Sentinels["order"], "sentinel-pairing", cons+" (order)", e.P.Pos(r.Pos()), "cvsserr.ErrMisordered", "input differs from its re-encoding but the error is cvsserr."+sent)
-			} else if ir.HasCond(conds, ir.Bin("!=", ex(1), nilOf(errorType))) {
-				c.Check(isWrap && sent == "" && inner != nil && inner.Key() == ex(1).Key(), "sentinel-pairing", cons+" (incomplete)", e.P.Pos(r.Pos()), "Encode's (= GetError's) error passed on", "the completeness error is replaced by something else")
-			}
-		} else {
-			gv := e.P.LookupFunc(l.Version.Pkg, "GetVersion")
-			var call *ir.Term
-			for _, b := range m.SF.Blocks {
-				for _, in := range b.Instrs {
-					if x, ok := in.(*ssa.Call); ok && x.Call.StaticCallee() != nil && x.Call.StaticCallee().Object() == types.Object(gv) {
-						call = m.B.Term(x)
-					}
-				}
-			}
-			if call == nil {
-				continue
-			}
-			ex := func(i int) *ir.Term { return &ir.Term{Op: ir.OExtract, N: i, Args: []*ir.Term{call}} }
-			verT := gv.Type().(*types.Signature).Results().At(0).Type()
-			en := e.F.EnumOf(verT)
-			if ir.HasCond(conds, ir.Bin("!=", ex(1), nilOf(errorType))) {
-				c.Check(isWrap && sent == "" && inner != nil && inner.Key() == ex(1).Key(), "sentinel-pairing", cons+" (prefix)", e.P.Pos(r.Pos()), "GetVersion's error passed on", "the prefix error is replaced by something else")
-			} else if en != nil && en.Zero != nil && ir.HasCond(conds, ir.Bin("==", ir.Const(en.Zero.Val(), verT), ex(0))) {
-				c.Check(isWrap && sent == spec.Sentinels["version"], "sentinel-pairing", cons+" (version)", e.P.Pos(r.Pos()), "cvsserr.ErrNotSupportVer", "an unsupported version is reported as cvsserr."+sent)
-			}
-			ge := ir.Call(l.Method("GetError"), m.ObjT)
-			if ir.HasCond(conds, ir.Bin("!=", ge, nilOf(errorType))) {
-				c.Check(et.Key() == ge.Key() || (isWrap && inner != nil && inner.Key() == ge.Key()), "sentinel-pairing", cons+" (incomplete)", e.P.Pos(r.Pos()), "GetError's error returned", "the completeness error is replaced by something else")
-			}
-		}
-	}
 }
 
 // sentinelProvenance: C11(a).
@@ -463,6 +407,13 @@ func (e *Env) singleSentinelSeen(bld *ir.Builder, v ssa.Value, depth int, seen m
 		if call, ok := x.Tuple.(*ssa.Call); ok {
 			return e.moduleErrorSource(call)
 		}
+	case *ssa.UnOp:
+		// the bare sentinel itself (a helper handing it to a caller that wraps it; errors.Is matches it either way)
+		if x.Op == token.MUL {
+			if g, ok := x.X.(*ssa.Global); ok {
+				return g.Pkg.Pkg.Path() == load.ModPath+"/cvsserr"
+			}
+		}
 	case *ssa.Call:
 		callee := x.Call.StaticCallee()
 		if callee == nil {
@@ -512,41 +463,19 @@ func (e *Env) constructorFresh(l *facts.Level, rule string) {
 		c.Fail(rule, l.String(), "", "constructor not found")
 		return
 	}
-	cl, info := e.ctorLiteral(ctor, rule)
-	if cl == nil {
-		return
-	}
-	fields, ok := litFields(cl, info)
-	if !ok {
+	fields := e.ctorFields(ctor, rule)
+	if fields == nil {
 		return
 	}
 	who := fname(ctor)
-	okNames := false
-	if x, ok := fields[l.Names]; ok {
-		if lit, ok := astCompositeLit(x); ok && len(lit.Elts) == 0 {
-			if _, isMap := info.TypeOf(lit).Underlying().(*types.Map); isMap {
-				okNames = true
-			}
-		}
-		// make(map[K]V) / make(map[K]V, n) is the same fresh empty map
-		if call, ok := ast.Unparen(x).(*ast.CallExpr); ok && !okNames {
-			if id, ok := ast.Unparen(call.Fun).(*ast.Ident); ok {
-				if bi, ok := info.Uses[id].(*types.Builtin); ok && bi.Name() == "make" && len(call.Args) >= 1 {
-					if _, isMap := info.TypeOf(call.Args[0]).Underlying().(*types.Map); isMap {
-						okNames = true
-					}
-				}
-			}
-		}
-	}
+	// a map allocated in the constructor itself (map[K]V{} or make(map[K]V)); ctorFields admits no map updates, so it is empty
+	x := fields[l.Names]
+	okNames := x != nil && x.Op == ir.OAlloc && x.Str == "map"
 	c.Check(okNames, rule, who+" names", e.P.Pos(ctor.Pos()), "a fresh empty map per object", "names is not initialised with a fresh empty map literal (nil map write would panic / shared map would leak state between objects)")
 	if l.Lower != nil {
-		okEmb := false
-		if x, ok := fields[l.Embedded]; ok {
-			if callee := calleeOf(info, x); callee != nil && callee == e.P.LookupFunc(l.Version.Pkg, "New"+l.Lower.Spec.Name) {
-				okEmb = true
-			}
-		}
+		lowerCtor := e.P.LookupFunc(l.Version.Pkg, "New"+l.Lower.Spec.Name)
+		y := fields[l.Embedded]
+		okEmb := y != nil && lowerCtor != nil && y.Op == ir.OCall && y.Obj == types.Object(lowerCtor) && len(y.Args) == 0
 		c.Check(okEmb, rule, who+" embedded "+l.Lower.Spec.Name, e.P.Pos(ctor.Pos()), "a fresh New"+l.Lower.Spec.Name+"() per object", "the embedded lower-level object is not a fresh constructor result")
 	}
 	// nothing else assigns names / the embedded pointer
@@ -739,7 +668,7 @@ func (e *Env) nilReceiverRules(v *spec.Version, ls []*facts.Level) {
 					continue
 				}
 				nDeref++
-				if !e.nonNilAt(nil, base, b, 0) {
+				if !e.nonNilAt(base, b, 0) {
 					bad = append(bad, e.P.Pos(in.Pos()))
 				}
 			}
@@ -769,7 +698,7 @@ func (e *Env) nilReceiverRules(v *spec.Version, ls []*facts.Level) {
 					}
 					sites++
 					arg := call.Call.Args[0]
-					if e.isEmbeddedLoad(arg, embedded) || e.nonNilAt(nil, arg, b, 0) {
+					if e.isEmbeddedLoad(arg, embedded) || e.nonNilAt(arg, b, 0) {
 						continue
 					}
 					// an unexported level method handing on its own receiver: passing it counted as a dereference
